@@ -42,6 +42,10 @@ def cms_grid(rng, randomise):
         {"kind": "linear", "width": w, "depth": 2 * d},      # different width and depth
         {"kind": "linear", "width": d, "depth": w},          # transposed shape of the base configuration
         {"kind": "linear", "width": w + 2**16, "depth": d},
+        # operands that array broadcasting would silently stretch to the receiver's shape
+        {"kind": "linear", "width": w, "depth": 1},
+        {"kind": "linear", "width": 1, "depth": d},
+        {"kind": "linear", "width": 1, "depth": 1},
     ]
     # a log16 and a log8 sketch that agree on *every* parameter value (only the counter type differs)
     g.append({"kind": "log16", "width": w, "depth": d, "max_count": mc8, "num_reserved": nr8})
@@ -69,6 +73,8 @@ def cms_grid(rng, randomise):
         g.append(dict(base, depth=d + 256))
         g.append(dict(base, width=2 * w))
         g.append(dict(base, depth=2 * d))
+        g.append(dict(base, depth=1))
+        g.append(dict(base, width=1))
     return g
 
 
@@ -108,6 +114,8 @@ def hh_grid(rng, randomise):
         dict(base, width=2 * w),
         dict(base, depth=2 * d),
         dict(base, phi=0.013),  # phi is not merge-relevant: must merge with base
+        dict(base, depth=1),
+        dict(base, width=1),
     ]
 
 
@@ -149,8 +157,63 @@ def make_maybe_subclass(cfg, sub):
     return obj
 
 
+def run_churn(case, ctx, mon):
+    """A long-lived process: sketch A stays alive while a few hundred sketches of other shapes / configurations are built
+    (and dropped); a new sketch with A's parameters must still merge with A, in both directions, and a mismatching one must not."""
+    base = case["base"]
+    a = state.make(base)
+    a.add(b"a-key", 3)
+    rng = np.random.default_rng(case["seed"])
+    for i in range(case["others"]):
+        o = dict(base)
+        if base["kind"] == "hll":
+            o["seed"] = int(rng.integers(1, 2**62))
+        elif base["kind"] in ("log16", "log8") and i % 2:
+            o["max_count"] = int(2**20 + i * 977)
+            o["num_reserved"] = int(i % 200)
+        else:
+            o["width"] = 2 + i
+            o["depth"] = 1 + i % 3
+        t = state.make(o)
+        t.add(b"x", 1)
+        if i % 3 == 0:
+            t2 = state.make(o)
+            t2.merge(t)
+        del t
+    b = state.make(base)
+    b.add(b"b-key", 2)
+    for x, y, name in ((a, b, "old<-new"), (b, a, "new<-old")):
+        try:
+            x.merge(y)
+            raised = None
+        except Exception as exc:  # noqa: BLE001
+            raised = type(exc).__name__
+        mon.check(raised is None, "compatible-pair-merges", raised=raised, a=base, b=base, direction=name,
+                  how=f"{case['others']} sketches of other configurations were built between the two operands")
+    bad = dict(base)
+    if base["kind"] == "hll":
+        bad["seed"] = base.get("seed", 0) + 1
+    else:
+        bad["width"] = base["width"] + 1
+    c = state.make(bad)
+    try:
+        a.merge(c)
+        raised = None
+    except TypeError:
+        raised = "TypeError"
+    except Exception as exc:  # noqa: BLE001
+        raised = type(exc).__name__
+    mon.check(raised == "TypeError", "incompatible-pair-raises-TypeError", raised=raised, a=base, b=bad, how="after building many other configurations")
+    mon.count("churn_cases")
+    mon.count("configurations_built_between_two_compatible_operands", case["others"])
+    mon.nontrivial(True)
+
+
 def gen_cases(ctx):
     rng = ctx.rng("grid")
+    for base in ({"kind": "hh", "width": 5, "depth": 2, "max_key_len": 6}, {"kind": "log8", "width": 4, "depth": 2, "max_count": 2**32 - 1, "num_reserved": 15},
+                 {"kind": "linear", "width": 6, "depth": 3}, {"kind": "hll", "p": 8, "seed": 4}, {"kind": "log16", "width": 4, "depth": 2, "max_count": 10**6, "num_reserved": 100}):
+        yield {"churn": True, "base": base, "others": 700 if base["kind"] == "log8" else 300, "seed": int(rng.integers(0, 2**31))}
     rounds = 1 if ctx.quick else 6
     for rd in range(rounds):
         randomise = rd > 0 or ctx.shard > 0
@@ -172,6 +235,8 @@ def gen_cases(ctx):
 
 
 def run_case(case, ctx, mon):
+    if case.get("churn"):
+        return run_churn(case, ctx, mon)
     a_cfg, b_cfg = case["a"], case["b"]
     a = make_maybe_subclass(a_cfg, case.get("a_sub"))
     for op in case["hist_a"]:
@@ -262,6 +327,7 @@ def floors(mon, ctx):
     inc = sum(v for k, v in mon.counters.items() if k.startswith("pairs:incompatible"))
     com = sum(v for k, v in mon.counters.items() if k.startswith("pairs:compatible"))
     mon.floor("incompatible pairs", inc, 200)
+    mon.floor("configurations built between two compatible operands", mon.counters["configurations_built_between_two_compatible_operands"], 1500)
     mon.floor("pairs tested right after a dropped compatible temporary", mon.counters["pairs_tested_right_after_a_dropped_compatible_temporary"], 100)
     mon.floor("incompatible operands allocated at the address of a dropped compatible temporary",
               mon.counters["incompatible_operands_at_the_address_of_a_dropped_compatible_temporary"], 30)
